@@ -10,7 +10,7 @@ from .. import dagsweep as D
 from .. import sweepprops as S
 
 LEVEL = 'proof'
-NEEDS = ['PyRt', 'IdentifyGenLemmas', 'IdentifyGenConf', 'IdentifyGenConfProofs', 'Bridge', 'BridgeProofs', 'Base', 'Digraph', 'DigraphProofs', 'Identify', 'IdentifyProofs', 'DSep', 'DSepProofs', 'CorrDag', 'IdentifyDSep']
+NEEDS = ['CorrIdentifyGen', 'CorrIdentifyGenConf', 'PyRt', 'IdentifyGenLemmas', 'IdentifyGenConf', 'IdentifyGenConfProofs', 'Bridge', 'BridgeProofs', 'Base', 'Digraph', 'DigraphProofs', 'Identify', 'IdentifyProofs', 'DSep', 'DSepProofs', 'CorrDag', 'IdentifyDSep']
 KNOWN = 'F12: identify_confounders is not always a sufficient adjustment set (algorithmic; call site identify_confounders, clause "sufficient adjustment set")'
 
 
@@ -61,6 +61,8 @@ def key(n, arcs, x, y):
 
 
 def check(run, tier, seed):
+    from .. import gencorr
+    gencorr.gen_correspondence(run, 'C18', tier, seed)
     dags, out, impl, diverging = S.sweep_property(
         run, tier, seed, 'C18',
         describe='identify_confounders for every ordered pair of every DAG: compared with the model (search as written), every returned node '
